@@ -4,6 +4,7 @@ SPEC = {
     "pkg": "c08",
     "tests": [
         {"name": "TestBounds", "quick": 2000, "thorough": 64000, "shards_quick": 8, "shards_thorough": 16, "timeout": 2400},
+        {"name": "TestLongRuns", "quick": 320, "thorough": 8000, "shards_quick": 2, "shards_thorough": 8, "timeout": 2400},
     ],
     "rule": ("rapid-generated cells of the matrix provider kind {uri, uripost, raw, http/json lines, http/json array, grpc/json, "
              "http/scenario, grpc/scenario, generic json (drawn three times as often as each of the others)} x preload on/off (HTTP kinds) x limit 0..2E+1 x passes 0..3 x entries 1..5 x "
@@ -39,6 +40,22 @@ SPEC = {
              "errors, where afero's mem file forgives all of that. All other dimensions are drawn independently of it (classes os_fs, <kind>/os_fs_bounded = ends at its bounds, "
              "_bounded_through_engine, <kind>/os_fs_cancelled = unbounded and ended by the cancel); the assertions are the same, and for the cancelled cells on the OS file system the result "
              "of Run must be nil or have the context's error as its cause - the test core/engine applies (errutil.IsCtxError) -, not a context error bundled with another failure. "
+             "Long lines (uri, uripost, raw; a quarter of their cells, with and without preload, any bounds, combined with the body sizes): one kind of LINE of the file - not a body - is "
+             "4040-60000 bytes long (around 4096 and 8192, 4-9 KB, 9-20 KB, 20-60 KB; all below the 64 KiB line limit of the uri reader's bufio.Scanner): the entry's URI carries a long "
+             "query string (uri: the `uri [tag]` line, uripost: the `bodySize uri [tag]` line, raw: the request line inside the sized block), the entry's tag is long (the same lines; "
+             "raw: the `size tag` line; chosencases then lists those tags), or a header line is long (`[X-Long: ...]` before the first entry; raw: a header of the request); in one or "
+             "several entries (classes long_line = above 4096 bytes, <kind>/long_line, <kind>/long_line_in_{uri,tag,header}, long_line_preload, long_line_read_again, long_line_over_8k). "
+             "grpc/json key sets: in half of the grpc/json cells the lines of the file do not all carry the same optional keys (tag, metadata, payload; `call` always): one line has all three, "
+             "another has no metadata, and untagged lines exist wherever chosencases leaves room - an untagged entry is never chosen, so `entries` of the oracle stays the number of listed entries "
+             "(classes grpc/json/mixed_keys, _untagged_entries, _untagged_entries_chosencases[_long_run]). "
+             "Long runs: in a sixth of the cells with entries of the default size (half of the grpc/json cells with mixed keys) the bounds are scaled so that 140-600 ammo are delivered - limit up to 600, passes up to 600 - "
+             "(unbounded cells: that many are taken before the cancel): more than the 128-slot queue of the HTTP and grpc providers holds, so consumers release ammo while the provider is still reading and "
+             "released objects come back to it (classes long_run, <kind>/long_run, long_run_bounded[_through_engine], long_run_chosencases; <kind>/released_ammo_object_delivered_again = the same grpc ammo object "
+             "was seen twice). TestLongRuns runs the same check over cases that are all long runs of tiny entries, grpc/json drawn four times as often as every other kind and always with 2-5 lines of differing key sets, "
+             "chosencases a subset in two cells of three of the kinds that have it. "
+             "Identity: for the HTTP formats and grpc/json every delivered ammo is read before it is released (direct drain: before Release; engine: in Shoot) - request URI, tag and body; tag, call, metadata, payload - "
+             "and the N ammo of a bounded run (or the first N of an unbounded one that stops acquiring after N) must be the first N of the sequence `entries that count, pass after pass in file order`: "
+             "none that is no such entry (truncated or stale fields, an entry chosencases does not list), every entry the right number of times. "
              "Non-trivial = a bound is hit (X finite) and the cell is not plain streaming uri, or chosencases matches nothing; "
              "distinct = hash of the case. Every kind x bound-combination cell must occur (required classes)."),
     "required_classes": ['TestBounds/uri/limit_only', 'TestBounds/uri/passes_only', 'TestBounds/uri/both', 'TestBounds/uri/none', 'TestBounds/uripost/limit_only', 'TestBounds/uripost/passes_only', 'TestBounds/uripost/both', 'TestBounds/uripost/none', 'TestBounds/raw/limit_only', 'TestBounds/raw/passes_only', 'TestBounds/raw/both', 'TestBounds/raw/none', 'TestBounds/jsonline/limit_only', 'TestBounds/jsonline/passes_only', 'TestBounds/jsonline/both', 'TestBounds/jsonline/none', 'TestBounds/jsonarray/limit_only', 'TestBounds/jsonarray/passes_only', 'TestBounds/jsonarray/both', 'TestBounds/jsonarray/none', 'TestBounds/grpc/json/limit_only', 'TestBounds/grpc/json/passes_only', 'TestBounds/grpc/json/both', 'TestBounds/grpc/json/none', 'TestBounds/http/scenario/limit_only', 'TestBounds/http/scenario/passes_only', 'TestBounds/http/scenario/both', 'TestBounds/http/scenario/none', 'TestBounds/grpc/scenario/limit_only', 'TestBounds/grpc/scenario/passes_only', 'TestBounds/grpc/scenario/both', 'TestBounds/grpc/scenario/none', 'TestBounds/json/limit_only', 'TestBounds/json/passes_only', 'TestBounds/json/both', 'TestBounds/json/none',
@@ -52,7 +69,14 @@ SPEC = {
                          'TestBounds/uri/os_fs_bounded', 'TestBounds/uripost/os_fs_bounded', 'TestBounds/raw/os_fs_bounded', 'TestBounds/jsonline/os_fs_bounded',
                          'TestBounds/jsonarray/os_fs_bounded', 'TestBounds/grpc/json/os_fs_bounded', 'TestBounds/jsonarray/os_fs_bounded_through_engine',
                          'TestBounds/uri/os_fs_cancelled', 'TestBounds/uripost/os_fs_cancelled', 'TestBounds/raw/os_fs_cancelled', 'TestBounds/jsonline/os_fs_cancelled',
-                         'TestBounds/jsonarray/os_fs_cancelled', 'TestBounds/grpc/json/os_fs_cancelled'],
+                         'TestBounds/jsonarray/os_fs_cancelled', 'TestBounds/grpc/json/os_fs_cancelled',
+                         'TestBounds/uri/long_line_in_uri', 'TestBounds/uri/long_line_in_tag', 'TestBounds/uri/long_line_in_header',
+                         'TestBounds/uripost/long_line_in_uri', 'TestBounds/uripost/long_line_in_tag', 'TestBounds/uripost/long_line_in_header',
+                         'TestBounds/raw/long_line_in_uri', 'TestBounds/raw/long_line_in_tag', 'TestBounds/raw/long_line_in_header',
+                         'TestBounds/grpc/json/mixed_keys_untagged_entries_chosencases', 'TestBounds/grpc/json/released_ammo_object_delivered_again',
+                         'TestLongRuns/grpc/json/mixed_keys_untagged_entries_chosencases_long_run', 'TestLongRuns/grpc/json/released_ammo_object_delivered_again',
+                         'TestLongRuns/uri/long_run', 'TestLongRuns/uripost/long_run', 'TestLongRuns/raw/long_run', 'TestLongRuns/jsonline/long_run', 'TestLongRuns/jsonarray/long_run',
+                         'TestLongRuns/http/scenario/long_run', 'TestLongRuns/grpc/scenario/long_run', 'TestLongRuns/json/long_run'],
     "floors": {"TestBounds/preload": 0.15, "TestBounds/single_entry": 0.1, "TestBounds/through_engine": 0.18,
                "TestBounds/live_consumers": 0.065, "TestBounds/late_consumers": 0.04,
                "TestBounds/provider_failed_with_consumers_acquiring": 0.012,
@@ -69,7 +93,17 @@ SPEC = {
                "TestBounds/os_fs": 0.14, "TestBounds/os_fs_bounded": 0.1, "TestBounds/os_fs_bounded_through_engine": 0.033, "TestBounds/os_fs_cancelled": 0.015,
                "TestBounds/uri/os_fs_bounded": 0.02, "TestBounds/uripost/os_fs_bounded": 0.022, "TestBounds/raw/os_fs_bounded": 0.015,
                "TestBounds/jsonline/os_fs_bounded": 0.014, "TestBounds/jsonarray/os_fs_bounded": 0.008, "TestBounds/grpc/json/os_fs_bounded": 0.009,
-               "TestBounds/jsonarray/os_fs_preload": 0.006, "TestBounds/jsonarray/os_fs_cancelled": 0.0007},
+               "TestBounds/jsonarray/os_fs_preload": 0.006, "TestBounds/jsonarray/os_fs_cancelled": 0.0007,
+               # a line (entry line / tag / header line, not a body) above 4096 bytes in uri, uripost, raw files
+               "TestBounds/long_line": 0.045, "TestBounds/long_line_over_8k": 0.025, "TestBounds/long_line_preload": 0.02, "TestBounds/long_line_read_again": 0.027,
+               "TestBounds/uri/long_line": 0.015, "TestBounds/uripost/long_line": 0.016, "TestBounds/raw/long_line": 0.01,
+               "TestBounds/uri/long_line_in_uri": 0.01, "TestBounds/uripost/long_line_in_uri": 0.011, "TestBounds/raw/long_line_in_uri": 0.006,
+               # more ammo delivered than a provider's queue holds; grpc/json lines with differing key sets
+               "TestBounds/long_run": 0.06, "TestBounds/long_run_bounded": 0.05, "TestBounds/long_run_bounded_through_engine": 0.017, "TestBounds/long_run_chosencases": 0.007,
+               "TestBounds/grpc/json/mixed_keys": 0.009, "TestBounds/grpc/json/mixed_keys_untagged_entries": 0.006,
+               "TestLongRuns/long_run_bounded": 0.38, "TestLongRuns/long_run_bounded_through_engine": 0.11, "TestLongRuns/long_run_chosencases": 0.24,
+               "TestLongRuns/grpc/json/mixed_keys_long_run": 0.11, "TestLongRuns/grpc/json/mixed_keys_untagged_entries_chosencases_long_run": 0.03,
+               "TestLongRuns/grpc/json/released_ammo_object_delivered_again": 0.06},
     "manifest": {
         "technique": "property-based testing (rapid) over the provider-kind x bound matrix with a counting oracle and a hang watchdog",
         "text": ("For every generated cell the provider must deliver exactly min(limit, passes*entries) ammo (non-zero bounds only), then "
@@ -79,10 +113,15 @@ SPEC = {
                  "The matrix includes chosencases (a subset of the entries: the bound formula counts the chosen entries; no entry at all: the provider is "
                  "cancelled while it scans its file and must return promptly without having delivered anything), maxammosize, and entries of up to 160 KiB "
                  "(above 64 KiB only with maxammosize raised) read for one or several passes, and - for the HTTP formats and grpc/json - the real OS file system next to the in-memory one: "
-                 "there too Run returns nil at the bounds (not the error of a file closed twice or read after close), the engine run succeeds, and a cancelled provider returns nil or the bare context error."),
+                 "there too Run returns nil at the bounds (not the error of a file closed twice or read after close), the engine run succeeds, and a cancelled provider returns nil or the bare context error. "
+                 "uri / uripost / raw files also have entry lines, tags and header lines of 4-60 KB (long query strings); grpc/json files also have lines that differ in the keys they carry (untagged entries, entries "
+                 "without metadata or payload); and runs of 140-600 ammo (limit / passes up to 600) make the providers recycle the ammo their consumers release. For the HTTP formats and grpc/json the delivered ammo "
+                 "are read (URI, tag, body / tag, call, metadata, payload): the N delivered ammo must be the first N of the entries that count, pass after pass in file order."),
         "note": ("Hang verdicts use a 5 s deadline (normal completion < 10 ms) and require the provider to still be stuck after cancel "
                  "or to return only because of it. Scenario files are minimal hand-written YAML (n scenarios of weight 1)."),
     },
     "assumptions": ["entries of scenario providers = scenarios of weight 1 in the ammo ring",
-                    "with chosencases the `entries` of the bound formula are the entries carrying a listed tag (docs/eng/providers.md: 'use only \"tag1\" and \"tag2\" ammo for this test'; limit counts delivered ammo, passes counts file passes - as C14 asserts)"],
+                    "with chosencases the `entries` of the bound formula are the entries carrying a listed tag (docs/eng/providers.md: 'use only \"tag1\" and \"tag2\" ammo for this test'; limit counts delivered ammo, passes counts file passes - as C14 asserts)",
+                    "identity of the delivered ammo: a pass hands over the entries that count in file order (all readers are sequential; C07 and C14 assert the same order), so the N ammo of a run are the first N of that cyclic sequence; "
+                    "a grpc/json line without `tag` is an untagged entry (the grpc gun reports it as __EMPTY__) and is never chosen by a non-empty chosencases (confutil.IsChosenCase compares the tag with the list)"],
 }
